@@ -4,6 +4,7 @@ import (
 	"go/constant"
 	"go/token"
 	"go/types"
+	"reflect"
 	"strings"
 
 	"golang.org/x/tools/go/ssa"
@@ -23,6 +24,41 @@ func init() {
 
 func c19() []*Ob {
 	return []*Ob{
+		{Prop: "C19", ID: "C19.9", Engine: "CODEC(json types)", Floor: 1,
+			Desc: "what is persisted can be read back: every type reachable through exported, JSON-visible fields from a value the asynchronous searcher hands to json.Unmarshal is one encoding/json can decode — no interface type with methods (only interface{} and types with their own UnmarshalJSON are decodable), no channel or function type; otherwise the whole .info file fails to load at the next start and the search, finished or not, is gone",
+			Check: func(c *Ctx) {
+				n := 0
+				for _, fn := range c.P.FuncsInPkg("fracmanager") {
+					for _, call := range CallsIn(fn, Callee("encoding/json.Unmarshal")) {
+						arg := Arg(call, 1)
+						if mi, ok := arg.(*ssa.MakeInterface); ok {
+							arg = mi.X
+						}
+						pt, ok := arg.Type().Underlying().(*types.Pointer)
+						if !ok {
+							continue
+						}
+						n++
+						if path, why := jsonUndecodable(pt.Elem(), "", map[types.Type]bool{}); why != "" {
+							c.Violation("codec:json:"+FuncName(fn)+":"+TypeStr(pt.Elem()), call.Pos(), "%s decodes JSON into %s, but %s is %s: encoding/json returns an error for the whole value", FuncName(fn), TypeStr(pt.Elem()), strings.TrimPrefix(path, "."), why)
+						} else {
+							c.Site(call.Pos(), "%s: every JSON-visible field of %s is decodable", FuncName(fn), TypeStr(pt.Elem()))
+						}
+					}
+				}
+				if n == 0 {
+					c.Undecided("codec:json:none", 0, "package fracmanager no longer decodes JSON")
+				}
+			}},
+		{Prop: "C19", ID: "C19.10", Engine: "ACK", Floor: 1,
+			Desc: "every searched fraction leaves its partial result: AsyncSearcher.processFrac returns success only after the fraction's .qpr file has been written (mustWriteFileAtomic) — also when the fraction contributed no ids: a request that asks for no documents still has histogram and aggregation samples in every fraction's result, and FetchSearchResult merges exactly the files it finds",
+			Check: func(c *Ctx) {
+				fn := c.Fn("(*fracmanager.AsyncSearcher).processFrac")
+				if fn == nil {
+					return
+				}
+				AckCheck(c, fn, []Must{{Name: "mustWriteFileAtomic", M: Callee("fracmanager.mustWriteFileAtomic")}}, nil)
+			}},
 		{Prop: "C19", ID: "C19.1", Engine: "ORDER+ERRFLOW", Floor: 8,
 			Desc: "atomic persistence: mustWriteFileAtomic does create(tmp) < write < sync < rename(tmp -> final) < directory sync, and every error in it and in mustFsyncFile reaches a fatal sink",
 			Check: func(c *Ctx) {
@@ -489,3 +525,53 @@ func usesConstString(fn *ssa.Function, s string) bool {
 }
 
 var _ = token.NoPos
+
+// jsonUndecodable walks the JSON-visible part of a type and returns the path and the reason of the first
+// component encoding/json cannot decode ("" when there is none).
+func jsonUndecodable(t types.Type, path string, seen map[types.Type]bool) (string, string) {
+	if seen[t] {
+		return "", ""
+	}
+	seen[t] = true
+	// a type with its own UnmarshalJSON / UnmarshalText decides for itself
+	for _, tt := range []types.Type{t, types.NewPointer(t)} {
+		ms := types.NewMethodSet(tt)
+		for i := 0; i < ms.Len(); i++ {
+			if n := ms.At(i).Obj().Name(); n == "UnmarshalJSON" || n == "UnmarshalText" {
+				return "", ""
+			}
+		}
+	}
+	switch u := t.Underlying().(type) {
+	case *types.Interface:
+		if u.NumMethods() > 0 {
+			return path, "an interface type with methods (" + TypeStr(t) + ")"
+		}
+	case *types.Chan:
+		return path, "a channel"
+	case *types.Signature:
+		return path, "a function"
+	case *types.Pointer:
+		return jsonUndecodable(u.Elem(), path, seen)
+	case *types.Slice:
+		return jsonUndecodable(u.Elem(), path+"[]", seen)
+	case *types.Array:
+		return jsonUndecodable(u.Elem(), path+"[]", seen)
+	case *types.Map:
+		return jsonUndecodable(u.Elem(), path+"[]", seen)
+	case *types.Struct:
+		for i := 0; i < u.NumFields(); i++ {
+			f := u.Field(i)
+			if !f.Exported() {
+				continue
+			}
+			if tag := reflect.StructTag(u.Tag(i)).Get("json"); tag == "-" {
+				continue
+			}
+			if p, why := jsonUndecodable(f.Type(), path+"."+f.Name(), seen); why != "" {
+				return p, why
+			}
+		}
+	}
+	return "", ""
+}
